@@ -171,6 +171,12 @@ func checkC09(c FmtCase) Outcome {
 	out.Detail["format1"], out.Detail["format1_exit"] = f1, f1r.Exit
 	if f1r.Exit != 0 {
 		out.Labels = append(out.Labels, "format-fails")
+		if _, ok := expectedLayout(c); ok && c.Kind == "structured" && !strings.Contains(f1r.Stderr, "is not supported") {
+			// balanced blocks, known directives only: format has no reason to refuse this file
+			out.Detail["stderr"] = tailLines(f1r.Stderr, 5)
+			out.Violation = fmt.Sprintf("format refuses a well-formed file (exit %d)", f1r.Exit)
+			return out
+		}
 		if f1 != content {
 			out.Violation = fmt.Sprintf("format exited %d but changed the file", f1r.Exit)
 			return out
